@@ -63,8 +63,14 @@ class Monitor:
         self.keep_points = keep_points
         self.violations = []
 
+    ret_dtype = None  # optional: the user's callables always return this width (e.g. float64 from a NumPy likelihood)
+
     def _ret(self, val, like_arr):
         dt = getattr(like_arr, "dtype", None)
+        if self.ret_dtype is not None:
+            from env import get_dtype
+
+            dt = get_dtype(self.xp_name, self.ret_dtype)
         try:
             return self.xp.asarray(val, dtype=dt)
         except TypeError:
